@@ -756,6 +756,8 @@ invalid_dist_symbol_ %+ next_sym:
 invalid_dist_symbol_ %+ next_sym3:
 	cmp	read_in_length, next_sym3
 	jl	end_of_input
+	;; Reached from the main loop: next_out was already advanced past the copy
+	sub	next_out, repeat_length
 invalid_symbol:
 	mov	rax, INVALID_SYMBOL
 	jmp	end
